@@ -1,7 +1,7 @@
 #!/bin/bash
 # usage: mutate.sh <patch> <PROP> [more props...]   — apply a patch to /repo, run the quick checks, undo it.
 set -u
-patch="$1"; shift
+patch="$(realpath "$1")"; shift
 cd /repo || exit 2
 if ! git diff --quiet; then echo "repo dirty, refusing"; exit 2; fi
 git apply "$patch" || { echo "patch does not apply"; exit 2; }
